@@ -23,7 +23,7 @@ fn rejection_is_justified(e: &RtcpWriteError, valid: bool) {
 pub fn sr<S: Src, const NB: usize, const B: usize>(s: &mut S) {
     let c = SrCfg::<NB>::draw(s);
     let k = s.upto(if NB > 0 { NB - 1 } else { 0 });
-    let mut buf = [0u8; B];
+    let mut buf = [0xA5u8; B];
     match c.builder().write_into(&mut buf) {
         Ok(n) => {
             let p = SenderReport::parse(&buf[..n]).expect("own parser rejects the built SR");
@@ -51,7 +51,7 @@ pub fn sr<S: Src, const NB: usize, const B: usize>(s: &mut S) {
 pub fn rr<S: Src, const NB: usize, const B: usize>(s: &mut S) {
     let c = RrCfg::<NB>::draw(s);
     let k = s.upto(if NB > 0 { NB - 1 } else { 0 });
-    let mut buf = [0u8; B];
+    let mut buf = [0xA5u8; B];
     match c.builder().write_into(&mut buf) {
         Ok(n) => {
             let p = ReceiverReport::parse(&buf[..n]).expect("own parser rejects the built RR");
@@ -75,7 +75,7 @@ pub fn rr<S: Src, const NB: usize, const B: usize>(s: &mut S) {
 /// The same through the generic parser and the compound iterator's entry point.
 pub fn sr_generic<S: Src>(s: &mut S) {
     let c = SrCfg::<1>::draw(s);
-    let mut buf = [0u8; 308];
+    let mut buf = [0xA5u8; 308];
     if let Ok(n) = c.builder().write_into(&mut buf) {
         match Packet::parse(&buf[..n]) {
             Ok(Packet::Sr(p)) => {
